@@ -907,6 +907,21 @@ class Executor(Evaluator):
                 self.ufuns[key] = F
             app = F(*zargs)
             return SpecArr(app, shape) if name == "ufun_arr" else app
+        if name == "arr":
+            # arr(j, length, expr): the tuple (expr for j in range(length)) as a specification value (witness tuples)
+            var = a[0].id
+            n_ = as_int(self.eval(a[1], st))
+            body = a[2]
+            env0 = dict(st.env)
+
+            def fn(ix, var=var, body=body, env0=env0):
+                s2 = st.fork()
+                s2.env = dict(env0)
+                s2.env[var] = ix[0]
+                s2.env["__bound__"] = tuple(env0.get("__bound__", ())) + (var,)
+                return self.eval(body, s2)
+
+            return AExpr([n_], fn, "i64")
         if name == "trig":
             # identity marker used as an instantiation trigger: trig(x) == x (definitional axiom, pattern trig(x))
             x = zint(as_int(self.eval(a[0], st)))
